@@ -46,6 +46,8 @@ theorem mem_setTask {s : St} {n t : Task} (h : t ∈ (setTask s n).tasks) : t = 
     (updateSessionTimeout s x n).1.window = s.window := by
   unfold updateSessionTimeout; simp only; splits
 
+@[simp] theorem checkWindowTimeout_fresh (s : St) : (checkWindowTimeout s).fresh = s.fresh := by
+  unfold checkWindowTimeout; splits
 @[simp] theorem checkWindowTimeout_now (s : St) : (checkWindowTimeout s).now = s.now := by
   unfold checkWindowTimeout; splits
 @[simp] theorem updateSessionTimeout_now (s : St) (x : Nat) (n : Bool) :
@@ -64,6 +66,45 @@ theorem checkWindowTimeout_open {s : St} {w : Window} (h : (checkWindowTimeout s
 
 @[simp] theorem removeTask_window (s : St) (x : Nat) : (removeTask s x).window = s.window := rfl
 @[simp] theorem setTask_window (s : St) (t : Task) : (setTask s t).window = s.window := rfl
+
+/-! ### the session table does not touch what the property speaks about -/
+@[simp] theorem removeSlot_sessions (s : St) (i : Slot) : (removeSlot s i).sessions = s.sessions := rfl
+@[simp] theorem removeSlot_window (s : St) (i : Slot) : (removeSlot s i).window = s.window := rfl
+@[simp] theorem removeSlot_tasks (s : St) (i : Slot) : (removeSlot s i).tasks = s.tasks := rfl
+@[simp] theorem removeSlot_now (s : St) (i : Slot) : (removeSlot s i).now = s.now := rfl
+@[simp] theorem removeSlot_marker (s : St) (i : Slot) : (removeSlot s i).marker = s.marker := rfl
+@[simp] theorem removeSlot_fresh (s : St) (i : Slot) : (removeSlot s i).fresh = s.fresh := rfl
+
+@[simp] theorem evictOne_sessions (s : St) (v : Option VClass) : (evictOne s v).sessions = s.sessions := by
+  unfold evictOne; split <;> rfl
+@[simp] theorem evictOne_window (s : St) (v : Option VClass) : (evictOne s v).window = s.window := by
+  unfold evictOne; split <;> rfl
+@[simp] theorem evictOne_tasks (s : St) (v : Option VClass) : (evictOne s v).tasks = s.tasks := by
+  unfold evictOne; split <;> rfl
+@[simp] theorem evictOne_now (s : St) (v : Option VClass) : (evictOne s v).now = s.now := by
+  unfold evictOne; split <;> rfl
+@[simp] theorem evictOne_marker (s : St) (v : Option VClass) : (evictOne s v).marker = s.marker := by
+  unfold evictOne; split <;> rfl
+
+/-- everything but the table -/
+def SameCore (a b : St) : Prop :=
+  a.sessions = b.sessions ∧ a.window = b.window ∧ a.tasks = b.tasks ∧ a.now = b.now ∧ a.marker = b.marker ∧
+    a.fresh = b.fresh
+
+theorem addSlot_core {s s' : St} {sl : Slot} (h : addSlot s sl = some s') : SameCore s' s := by
+  unfold addSlot at h
+  split at h
+  · injection h with h; subst h; exact ⟨rfl, rfl, rfl, rfl, rfl, rfl⟩
+  · cases h
+
+theorem reserve_core {s s' : St} {x : Nat} {v : Option VClass} (h : reserve s x v = some s') : SameCore s' s := by
+  unfold reserve at h
+  split at h
+  · rename_i s1 h1; injection h with h; subst h; exact addSlot_core h1
+  · split at h
+    · obtain ⟨a, b, c, d, e, f⟩ := addSlot_core h
+      exact ⟨a, b, c, d, e, f⟩
+    · cases h
 
 /-- the failure counter of an open window stays below the revocation threshold -/
 def WinInv (o : Option Window) : Prop := ∀ w, o = some w → w.failures < maxFailures
@@ -102,6 +143,54 @@ theorem winInv_record {s : St} : WinInv (recordFailure s).window := by
 
 theorem winInv_fail {s : St} {x : Nat} : WinInv (failTask s x).window := winInv_record
 
+
+/-! ### the responder's first step on a fresh exchange -/
+theorem pbkdfNew_sessions (s : St) (x : Nat) (r : Req) (v : Option VClass) :
+    (pbkdfNew s x r v).1.sessions = s.sessions := by
+  unfold pbkdfNew
+  split
+  · simp
+  · rename_i s1 h1
+    have hc := (reserve_core h1).1
+    simp only
+    repeat' split
+    all_goals simp [hc]
+
+theorem mem_pbkdfNew {s : St} {x : Nat} {r : Req} {v : Option VClass} {t : Task}
+    (h : t ∈ (pbkdfNew s x r v).1.tasks) : t ∈ s.tasks ∨ ∃ ctx, t.stage = .waitPake1 ctx := by
+  unfold pbkdfNew at h
+  split at h
+  · left; simpa using h
+  · rename_i s1 h1
+    have hc := (reserve_core h1).2.2.1
+    simp only at h
+    split at h
+    · left; simpa [hc] using h
+    · split at h
+      · left; simpa [hc] using h
+      · split at h
+        · rcases mem_setTask h with h | h
+          · right; exact ⟨_, by rw [h]⟩
+          · left; simpa [hc] using h
+        · left; simpa [hc] using h
+
+theorem pbkdfNew_winInv {s : St} (x : Nat) (r : Req) (v : Option VClass) (h : WinInv s.window) :
+    WinInv (pbkdfNew s x r v).1.window := by
+  unfold pbkdfNew
+  split
+  · exact winInv_record
+  · rename_i s1 h1
+    have hc := (reserve_core h1).2.1
+    have h1w : WinInv s1.window := by rw [hc]; exact h
+    simp only
+    split
+    · simp only [updateSessionTimeout_window]; exact h1w
+    · split
+      · rename_i hw; intro w hw2; simp only at hw2; rw [hw] at hw2; cases hw2
+      · split
+        · simp only [setTask_window]; apply winInv_check; simp only [updateSessionTimeout_window]; exact h1w
+        · exact winInv_record
+
 /-- the only way a session comes into existence: a Pake3 on a live handshake that holds the
 in-progress marker, carrying exactly the confirmation value that handshake expects, while the
 window whose verifier answered its Pake1 is still present and unexpired -/
@@ -113,11 +202,24 @@ theorem session_implies_proof (s : St) (op : Op) :
       (step s op).1.sessions = s.sessions ++
         [{ exch := x, conf := exp, windowOpenAtCreation := true, sameWindowAtCreation := true }] := by
   cases op with
-  | openWin pw secs => left; simp only [step]; splits
+  | openWin pw secs => left; simp only [step, openWinCore]; splits
+  | openEnh pw secs sl it d => left; simp only [step, openEnhCore]; splits
+  | cmdOpenEnh pw secs sl it d vl => left; simp only [step, openEnhCore]; repeat' (first | (simp; done) | split)
+  | cmdOpenBasic pw secs => left; simp only [step, openWinCore]; repeat' (first | (simp; done) | split)
   | revoke => left; rfl
   | tick ms => left; rfl
   | poll => left; simp [step]
-  | pbkdf x r => left; simp only [step]; repeat' (first | (simp; done) | split)
+  | pbkdf x r v =>
+    left; simp only [step]
+    split
+    · repeat' (first | (simp; done) | split)
+    · split
+      · simp
+      · rename_i s1 h1
+        rw [pbkdfNew_sessions]; exact (addSlot_core h1).1
+  | rxTimeout x => left; simp only [step]; repeat' (first | (simp; done) | split)
+  | fill n p => left; rfl
+  | unfill => left; rfl
   | pake1 x p => left; simp only [step]; repeat' (first | (simp; done) | split)
   | pake3 x c =>
     simp only [step]
@@ -219,14 +321,30 @@ theorem waitPake3_only_by_valid_pake1 (s : St) (op : Op) (t : Task) (exp : Conf)
       s.window = some w ∧ s.now ≤ w.expiry ∧ exp.pw = w.pw ∧ exp.ctx = ctx ∧ exp.pA = a ∧ wid = w.id := by
   cases op with
   | openWin pw secs =>
-    left; simp only [step] at ht
+    left; simp only [step, openWinCore] at ht
     split at ht
     · exact ht
     · split at ht <;> exact ht
+  | cmdOpenEnh pw secs sl it d vl =>
+    left; simp only [step, openEnhCore] at ht
+    repeat' split at ht
+    all_goals first
+      | exact ht
+      | (simpa using ht)
+  | cmdOpenBasic pw secs =>
+    left; simp only [step, openWinCore] at ht
+    repeat' split at ht
+    all_goals first
+      | exact ht
+      | (simpa using ht)
   | revoke => left; exact ht
   | tick ms => left; exact ht
   | poll => left; simpa [step] using ht
-  | pbkdf x r =>
+  | openEnh pw secs sl it d =>
+    left; simp only [step, openEnhCore] at ht
+    repeat' split at ht
+    all_goals exact ht
+  | pbkdf x r v =>
     left
     simp only [step] at ht
     split at ht
@@ -235,13 +353,20 @@ theorem waitPake3_only_by_valid_pake1 (s : St) (op : Op) (t : Task) (exp : Conf)
       · simpa using mem_failTask ht
     · split at ht
       · simpa using ht
-      · split at ht
-        · simpa using ht
-        · split at ht
-          · rcases mem_setTask ht with h | h
-            · rw [h] at hst; cases hst
-            · simpa using h
-          · simpa using ht
+      · rename_i s1 h1
+        rcases mem_pbkdfNew ht with h | ⟨ctx, h⟩
+        · rw [(addSlot_core h1).2.2.1] at h; exact h
+        · rw [h] at hst; cases hst
+  | rxTimeout x =>
+    left
+    simp only [step] at ht
+    split at ht
+    · exact ht
+    · split at ht
+      · simpa using mem_failTask ht
+      · exact ht
+  | fill n p => left; exact ht
+  | unfill => left; exact ht
   | pake1 x p =>
     simp only [step] at ht
     split at ht
@@ -299,23 +424,58 @@ theorem step_winInv (s : St) (op : Op) (h : WinInv s.window) : WinInv (step s op
   have h0 : (0 : Nat) < maxFailures := by decide
   cases op with
   | openWin pw secs =>
-    simp only [step]
+    simp only [step, openWinCore]
     split
     · exact h
     · split
       · exact h
       · intro w hw; simp only at hw; injection hw with hw; subst hw; exact h0
+  | openEnh pw secs sl it d =>
+    simp only [step, openEnhCore]
+    split
+    · exact h
+    · split
+      · exact h
+      · split
+        · exact h
+        · intro w hw; simp only at hw; injection hw with hw; subst hw; exact h0
+  | cmdOpenEnh pw secs sl it d vl =>
+    simp only [step, openEnhCore]
+    repeat' split
+    all_goals first
+      | exact h
+      | exact winInv_check h
+      | (intro w hw; simp only at hw; injection hw with hw; subst hw; exact h0)
+  | cmdOpenBasic pw secs =>
+    simp only [step, openWinCore]
+    repeat' split
+    all_goals first
+      | exact h
+      | exact winInv_check h
+      | (intro w hw; simp only at hw; injection hw with hw; subst hw; exact h0)
   | revoke => exact winInv_none
   | tick ms => exact h
   | poll => exact winInv_check h
-  | pbkdf x r =>
+  | pbkdf x r v =>
+    simp only [step]
+    split
+    · repeat' split
+      all_goals first
+        | exact winInv_fail
+        | (simp only [removeTask_window, updateSessionTimeout_window]; exact h)
+    · split
+      · simp only [evictOne_window]; exact h
+      · rename_i s1 h1
+        apply pbkdfNew_winInv
+        rw [(addSlot_core h1).2.1]; exact h
+  | rxTimeout x =>
     simp only [step]
     repeat' split
     all_goals first
+      | exact h
       | exact winInv_fail
-      | exact winInv_record
-      | (simp only [removeTask_window, setTask_window, updateSessionTimeout_window]; exact h)
-      | (simp only [removeTask_window, setTask_window]; apply winInv_check; simp only [updateSessionTimeout_window]; exact h)
+  | fill n p => exact h
+  | unfill => exact h
   | pake1 x p =>
     simp only [step]
     repeat' split
@@ -424,6 +584,1273 @@ theorem sessions_prefix (s : St) (op : Op) : ∃ l, (step s op).1.sessions = s.s
   rcases session_implies_proof s op with h | ⟨_, _, _, _, _, _, _, _, _, _, _, _, h⟩
   · exact ⟨[], by simp [h]⟩
   · exact ⟨_, h⟩
+/-! ## One window at a time; the enhanced window (`Pase::open_comm_window`) -/
+
+/-- **Single-window rule**: while a window is present - basic or enhanced, expired or not - opening a
+basic one is refused with `Busy` and changes nothing -/
+theorem single_window_basic (s : St) (w : Window) (pw secs : Nat) (h : s.window = some w) :
+    step s (.openWin pw secs) = (s, .errBusy) := by
+  simp [step, openWinCore, h]
+
+/-- … and so is opening an enhanced one (enhanced over basic, enhanced over enhanced) -/
+theorem single_window_enhanced (s : St) (w : Window) (pw secs sl it d : Nat) (h : s.window = some w) :
+    step s (.openEnh pw secs sl it d) = (s, .errBusy) := by
+  simp [step, openEnhCore, h]
+
+/-- **When `open_comm_window` succeeds**: no window is present, the commissioning timeout lies in
+`MIN..=MAX_COMM_WINDOW_TIMEOUT_SECS` and the salt has 16..=32 bytes. The iteration count is not
+looked at here (that is the cluster handler's check). -/
+theorem openEnh_ok_iff (s : St) (pw secs sl it d : Nat) :
+    (step s (.openEnh pw secs sl it d)).2 = .ok ↔
+      s.window = none ∧ minWindowSecs ≤ secs ∧ secs ≤ maxWindowSecs ∧ minSaltLen ≤ sl ∧ sl ≤ maxSaltLen := by
+  simp only [step, openEnhCore]
+  cases hw : s.window with
+  | some w => simp
+  | none =>
+    simp only [Option.isSome_none, Bool.false_eq_true, if_false, Bool.or_eq_true, decide_eq_true_eq, true_and]
+    by_cases h1 : secs < minWindowSecs ∨ secs > maxWindowSecs
+    · simp only [h1, if_true]
+      constructor
+      · intro h; cases h
+      · intro ⟨a, b, _⟩; omega
+    · simp only [h1, if_false]
+      by_cases h2 : sl < minSaltLen ∨ sl > maxSaltLen
+      · simp only [h2, if_true]
+        constructor
+        · intro h; cases h
+        · intro ⟨_, _, a, b⟩; omega
+      · simp only [h2, if_false, true_iff]
+        omega
+
+/-- the window it then opens: the supplied verifier's passcode class, salt length, iteration count
+and discriminator, its own expiry, no failures, advertised as *enhanced* -/
+theorem openEnh_window (s : St) (pw secs sl it d : Nat) (h : (step s (.openEnh pw secs sl it d)).2 = .ok) :
+    (step s (.openEnh pw secs sl it d)).1.window =
+      some { id := s.fresh, pw := pw, expiry := s.now + secs * 1000, failures := 0, enhanced := true,
+             iterations := it, saltLen := sl, discriminator := d } ∧
+    advertisedAs (step s (.openEnh pw secs sl it d)).1 = some (d, true) := by
+  simp only [step, openEnhCore] at h ⊢
+  split at h
+  · cases h
+  · split at h
+    · cases h
+    · split at h
+      · cases h
+      · rename_i h1 h2 h3
+        simp [h1, h2, h3, advertisedAs]
+
+/-- a refused `open_comm_window` changes nothing -/
+theorem openEnh_refused_unchanged (s : St) (pw secs sl it d : Nat)
+    (h : (step s (.openEnh pw secs sl it d)).2 ≠ .ok) : (step s (.openEnh pw secs sl it d)).1 = s := by
+  simp only [step, openEnhCore] at h ⊢
+  repeat' split
+  all_goals first
+    | rfl
+    | (exfalso; apply h; simp_all)
+
+/-- a basic window announces the built-in iteration count and a 32-byte salt and is not advertised as enhanced -/
+theorem openWin_window (s : St) (pw secs : Nat) (h : (step s (.openWin pw secs)).2 = .ok) :
+    ∃ w, (step s (.openWin pw secs)).1.window = some w ∧ w.pw = pw ∧ w.enhanced = false ∧
+      w.iterations = builtinIterations ∧ w.saltLen = maxSaltLen ∧ w.expiry = s.now + secs * 1000 ∧ w.failures = 0 := by
+  simp only [step, openWinCore] at h ⊢
+  split at h
+  · cases h
+  · split at h
+    · cases h
+    · rename_i h1 h2
+      simp [h1, h2]
+
+/-! ## The cluster commands `OpenCommissioningWindow` / `OpenBasicCommissioningWindow` (`adm_comm.rs`) -/
+
+/-- the handler's salt bounds are those of `Pase::validate_salt_len`: a command that passed the handler's
+check is never refused with `ConstraintError` below -/
+theorem adm_salt_bounds_agree : admMinSaltLen = minSaltLen ∧ admMaxSaltLen = maxSaltLen := by decide
+
+/-- the legal PBKDF range of the specification: 1000..=100000 iterations, 16..=32 bytes of salt, a 97-byte verifier -/
+theorem adm_bounds : admMinIterations = 1000 ∧ admMaxIterations = 100000 ∧ admMinSaltLen = 16 ∧ admMaxSaltLen = 32 ∧
+    admVerifierLen = 97 := by decide
+
+/-- illegal PBKDF parameters: `PAKEParameterError`, and nothing changes (an expired window is not even looked at) -/
+theorem cmdOpenEnh_param_error (s : St) (pw secs sl it d vl : Nat)
+    (h : it < admMinIterations ∨ it > admMaxIterations ∨ sl < admMinSaltLen ∨ sl > admMaxSaltLen ∨ vl ≠ admVerifierLen) :
+    step s (.cmdOpenEnh pw secs sl it d vl) = (s, .errPakeParam) := by
+  simp only [step]
+  by_cases h1 : it < admMinIterations ∨ it > admMaxIterations
+  · simp [h1]
+  · by_cases h2 : sl < admMinSaltLen ∨ sl > admMaxSaltLen
+    · simp [h1, h2]
+    · have h3 : vl ≠ admVerifierLen := by
+        rcases h with h | h | h | h | h
+        · exact absurd (Or.inl h) h1
+        · exact absurd (Or.inr h) h1
+        · exact absurd (Or.inl h) h2
+        · exact absurd (Or.inr h) h2
+        · exact h
+      simp [h1, h2, h3]
+
+/-- with legal parameters the command is: expiry check, then `Pase::open_comm_window` -/
+theorem cmdOpenEnh_valid (s : St) (pw secs sl it d vl : Nat)
+    (hp : ¬ (it < admMinIterations ∨ it > admMaxIterations)) (hs : ¬ (sl < admMinSaltLen ∨ sl > admMaxSaltLen))
+    (hv : vl = admVerifierLen) :
+    step s (.cmdOpenEnh pw secs sl it d vl) =
+      ((step (checkWindowTimeout s) (.openEnh pw secs sl it d)).1,
+        if (step (checkWindowTimeout s) (.openEnh pw secs sl it d)).2 = .errBusy then .errClusterBusy
+        else (step (checkWindowTimeout s) (.openEnh pw secs sl it d)).2) := by
+  have h1 : (decide (it < admMinIterations) || decide (it > admMaxIterations)) = false := by simpa using hp
+  have h2 : (decide (sl < admMinSaltLen) || decide (sl > admMaxSaltLen)) = false := by simpa using hs
+  have h3 : (vl != admVerifierLen) = false := by simp [hv]
+  simp only [step, h1, h2, h3, Bool.false_eq_true, if_false]
+  rfl
+
+/-- **An accepted `OpenCommissioningWindow` has legal PBKDF parameters** and the window then announces
+exactly these (so what the responder sends in PBKDFParamResponse is in the legal range), with the
+supplied discriminator, its own expiry and no failures -/
+theorem cmdOpenEnh_ok (s : St) (pw secs sl it d vl : Nat) (h : (step s (.cmdOpenEnh pw secs sl it d vl)).2 = .ok) :
+    admMinIterations ≤ it ∧ it ≤ admMaxIterations ∧ admMinSaltLen ≤ sl ∧ sl ≤ admMaxSaltLen ∧ vl = admVerifierLen ∧
+    minWindowSecs ≤ secs ∧ secs ≤ maxWindowSecs ∧
+    (step s (.cmdOpenEnh pw secs sl it d vl)).1.window =
+      some { id := s.fresh, pw := pw, expiry := s.now + secs * 1000, failures := 0, enhanced := true,
+             iterations := it, saltLen := sl, discriminator := d } := by
+  by_cases hbad : it < admMinIterations ∨ it > admMaxIterations ∨ sl < admMinSaltLen ∨ sl > admMaxSaltLen ∨ vl ≠ admVerifierLen
+  · rw [cmdOpenEnh_param_error s pw secs sl it d vl hbad] at h
+    cases h
+  · have hp : ¬ (it < admMinIterations ∨ it > admMaxIterations) := fun hh => hbad (by omega)
+    have hs : ¬ (sl < admMinSaltLen ∨ sl > admMaxSaltLen) := fun hh => hbad (by omega)
+    have hv : vl = admVerifierLen := Decidable.byContradiction (fun hh => hbad (Or.inr (Or.inr (Or.inr (Or.inr hh)))))
+    rw [cmdOpenEnh_valid s pw secs sl it d vl hp hs hv] at h ⊢
+    simp only at h ⊢
+    have hok : (step (checkWindowTimeout s) (.openEnh pw secs sl it d)).2 = .ok := by
+      split at h
+      · cases h
+      · exact h
+    obtain ⟨_, h1, h2, _, _⟩ := (openEnh_ok_iff _ pw secs sl it d).mp hok
+    have hw := (openEnh_window _ pw secs sl it d hok).1
+    simp only [checkWindowTimeout_fresh, checkWindowTimeout_now] at hw
+    exact ⟨by omega, by omega, by omega, by omega, hv, h1, h2, hw⟩
+
+/-- **Single-window rule of the commands**: while an *unexpired* window is present both commands answer the
+cluster status `Busy` and change nothing -/
+theorem cmd_single_window (s : St) (w : Window) (hw : s.window = some w) (hlive : s.now ≤ w.expiry)
+    (pw secs : Nat) : step s (.cmdOpenBasic pw secs) = (s, .errClusterBusy) := by
+  have hc : checkWindowTimeout s = s := by
+    unfold checkWindowTimeout; simp only [hw]; split
+    · omega
+    · rfl
+  simp [step, openWinCore, hc, hw]
+
+theorem cmd_single_window_enh (s : St) (w : Window) (hw : s.window = some w) (hlive : s.now ≤ w.expiry)
+    (pw secs sl it d vl : Nat) (hp : ¬ (it < admMinIterations ∨ it > admMaxIterations)) (hs : ¬ (sl < admMinSaltLen ∨ sl > admMaxSaltLen))
+    (hv : vl = admVerifierLen) : step s (.cmdOpenEnh pw secs sl it d vl) = (s, .errClusterBusy) := by
+  have hc : checkWindowTimeout s = s := by
+    unfold checkWindowTimeout; simp only [hw]; split
+    · omega
+    · rfl
+  simp [step, openEnhCore, hc, hw, hp, hs, hv]
+
+/-- … whereas an *expired* window that nobody polled does not block the commands (they run the expiry
+check first) - it does block `Matter::open_basic_comm_window` / `Pase::open_comm_window` (`single_window_*`) -/
+theorem cmd_replaces_expired_window (s : St) (w : Window) (hw : s.window = some w) (hexp : s.now > w.expiry)
+    (pw secs : Nat) (h1 : minWindowSecs ≤ secs) (h2 : secs ≤ maxWindowSecs) :
+    (step s (.cmdOpenBasic pw secs)).2 = .ok := by
+  have hc : (checkWindowTimeout s).window = none := by
+    unfold checkWindowTimeout; simp only [hw, hexp, if_true]
+  have hr : ¬ (secs < minWindowSecs ∨ secs > maxWindowSecs) := by omega
+  simp [step, openWinCore, hc, hr]
+
+/-! ## The proof a session rests on is a proof for the verifier of the window that is open -/
+
+@[simp] theorem recordFailure_fresh (s : St) : (recordFailure s).fresh = s.fresh := by
+  unfold recordFailure; simp only; splits
+@[simp] theorem removeTask_fresh (s : St) (x : Nat) : (removeTask s x).fresh = s.fresh := rfl
+@[simp] theorem setTask_fresh (s : St) (t : Task) : (setTask s t).fresh = s.fresh := rfl
+@[simp] theorem failTask_fresh (s : St) (x : Nat) : (failTask s x).fresh = s.fresh := by simp [failTask]
+@[simp] theorem updateSessionTimeout_fresh (s : St) (x : Nat) (n : Bool) :
+    (updateSessionTimeout s x n).1.fresh = s.fresh := by
+  unfold updateSessionTimeout; simp only; splits
+@[simp] theorem evictOne_fresh (s : St) (v : Option VClass) : (evictOne s v).fresh = s.fresh := by
+  unfold evictOne; split <;> rfl
+
+/-- `b` is the window `a`, possibly closed meanwhile or with more failures counted: never another one -/
+def WinKeep (a b : Option Window) : Prop :=
+  ∀ w', b = some w' → ∃ w, a = some w ∧ w'.id = w.id ∧ w'.pw = w.pw ∧ w'.expiry = w.expiry
+
+theorem winKeep_refl (a : Option Window) : WinKeep a a := fun w' h => ⟨w', h, rfl, rfl, rfl⟩
+theorem winKeep_none (a : Option Window) : WinKeep a none := fun _ h => by cases h
+
+theorem winKeep_check {a : Option Window} {s : St} (h : WinKeep a s.window) :
+    WinKeep a (checkWindowTimeout s).window := by
+  unfold checkWindowTimeout
+  split
+  · split
+    · exact winKeep_none a
+    · exact h
+  · exact h
+
+theorem winKeep_record {a : Option Window} {s : St} (h : WinKeep a s.window) :
+    WinKeep a (recordFailure s).window := by
+  rw [recordFailure_window]
+  split
+  · rename_i w hw
+    split
+    · exact winKeep_none a
+    · intro w' hw'
+      injection hw' with hw'
+      obtain ⟨w0, h0, h1, h2, h3⟩ := h w hw
+      subst hw'
+      exact ⟨w0, h0, h1, h2, h3⟩
+  · exact winKeep_none a
+
+theorem winKeep_fail {a : Option Window} {s : St} {x : Nat} (h : WinKeep a s.window) :
+    WinKeep a (failTask s x).window := winKeep_record h
+
+theorem pbkdfNew_fresh_le (s : St) (x : Nat) (r : Req) (v : Option VClass) :
+    s.fresh ≤ (pbkdfNew s x r v).1.fresh := by
+  unfold pbkdfNew
+  split
+  · simp
+  · rename_i s1 h1
+    have hc := (reserve_core h1).2.2.2.2.2
+    simp only
+    repeat' split
+    all_goals simp [hc]
+
+theorem pbkdfNew_winKeep (s : St) (x : Nat) (r : Req) (v : Option VClass) :
+    WinKeep s.window (pbkdfNew s x r v).1.window := by
+  unfold pbkdfNew
+  split
+  · exact winKeep_record (winKeep_refl _)
+  · rename_i s1 h1
+    have hc := (reserve_core h1).2.1
+    have h1w : WinKeep s.window s1.window := by rw [hc]; exact winKeep_refl _
+    simp only
+    split
+    · simp only [updateSessionTimeout_window]; exact h1w
+    · split
+      · rename_i hw; intro w hw2; simp only at hw2; rw [hw] at hw2; cases hw2
+      · split
+        · simp only [setTask_window]; apply winKeep_check; simp only [updateSessionTimeout_window]; exact h1w
+        · apply winKeep_record; simp only; apply winKeep_check; simp only [updateSessionTimeout_window]; exact h1w
+
+/-- no step makes the source of fresh identities go back -/
+theorem step_fresh_le (s : St) (op : Op) : s.fresh ≤ (step s op).1.fresh := by
+  cases op with
+  | pbkdf x r v =>
+    simp only [step]
+    split
+    · repeat' split
+      all_goals simp
+    · split
+      · simp
+      · rename_i s1 h1
+        have := pbkdfNew_fresh_le s1 x r v
+        rw [(addSlot_core h1).2.2.2.2.2] at this
+        exact this
+  | _ =>
+    simp only [step, openWinCore, openEnhCore]
+    repeat' split
+    all_goals simp
+
+/-- what a step can do to the window: keep it (perhaps closed, perhaps with one more failure), or -
+(when none is present, or - the cluster commands - when the present one has expired) open a new one
+whose identity is fresh -/
+theorem step_window_frame (s : St) (op : Op) :
+    WinKeep s.window (step s op).1.window ∨
+    (∃ w', (step s op).1.window = some w' ∧ w'.id = s.fresh ∧
+      (step s op).1.fresh = s.fresh + 1 ∧ (step s op).1.tasks = s.tasks) := by
+  cases op with
+  | openWin pw secs =>
+    simp only [step, openWinCore]
+    split
+    · left; exact winKeep_refl _
+    · split
+      · left; exact winKeep_refl _
+      · right
+        exact ⟨_, rfl, rfl, rfl, rfl⟩
+  | openEnh pw secs sl it d =>
+    simp only [step, openEnhCore]
+    split
+    · left; exact winKeep_refl _
+    · split
+      · left; exact winKeep_refl _
+      · split
+        · left; exact winKeep_refl _
+        · right
+          exact ⟨_, rfl, rfl, rfl, rfl⟩
+  | cmdOpenEnh pw secs sl it d vl =>
+    simp only [step, openEnhCore]
+    repeat' split
+    all_goals first
+      | (left; exact winKeep_refl _)
+      | (left; exact winKeep_check (winKeep_refl _))
+      | (right; exact ⟨_, rfl, by simp, by simp, by simp⟩)
+  | cmdOpenBasic pw secs =>
+    simp only [step, openWinCore]
+    repeat' split
+    all_goals first
+      | (left; exact winKeep_refl _)
+      | (left; exact winKeep_check (winKeep_refl _))
+      | (right; exact ⟨_, rfl, by simp, by simp, by simp⟩)
+  | revoke => left; exact winKeep_none _
+  | tick ms => left; exact winKeep_refl _
+  | poll => left; exact winKeep_check (winKeep_refl _)
+  | pbkdf x r v =>
+    left
+    simp only [step]
+    split
+    · repeat' split
+      all_goals first
+        | (apply winKeep_fail; simp only [updateSessionTimeout_window]; exact winKeep_refl _)
+        | (simp only [removeTask_window, updateSessionTimeout_window]; exact winKeep_refl _)
+    · split
+      · simp only [evictOne_window]; exact winKeep_refl _
+      · rename_i s1 h1
+        have := pbkdfNew_winKeep s1 x r v
+        rw [(addSlot_core h1).2.1] at this
+        exact this
+  | pake1 x p =>
+    left
+    simp only [step]
+    repeat' split
+    all_goals first
+      | exact winKeep_refl _
+      | (apply winKeep_fail; simp only [updateSessionTimeout_window]; exact winKeep_refl _)
+      | (simp only [removeTask_window, setTask_window, updateSessionTimeout_window]; exact winKeep_refl _)
+      | (apply winKeep_fail; apply winKeep_check; simp only [updateSessionTimeout_window]; exact winKeep_refl _)
+      | (simp only [removeTask_window, setTask_window]; apply winKeep_check; simp only [updateSessionTimeout_window]; exact winKeep_refl _)
+  | pake3 x c =>
+    left
+    simp only [step]
+    repeat' split
+    all_goals first
+      | exact winKeep_refl _
+      | (apply winKeep_fail; simp only [updateSessionTimeout_window]; exact winKeep_refl _)
+      | (simp only [removeTask_window, setTask_window, updateSessionTimeout_window]; exact winKeep_refl _)
+      | (apply winKeep_fail; simp only; apply winKeep_check; simp only [updateSessionTimeout_window]; exact winKeep_refl _)
+      | (simp only [removeTask_window, setTask_window]; apply winKeep_check; simp only [updateSessionTimeout_window]; exact winKeep_refl _)
+  | other x =>
+    left
+    simp only [step]
+    repeat' split
+    all_goals first
+      | exact winKeep_refl _
+      | (apply winKeep_fail; simp only [updateSessionTimeout_window]; exact winKeep_refl _)
+      | (simp only [removeTask_window, updateSessionTimeout_window]; exact winKeep_refl _)
+  | dead x =>
+    left
+    simp only [step]
+    repeat' split
+    all_goals first
+      | exact winKeep_refl _
+      | (apply winKeep_fail; exact winKeep_refl _)
+  | rxTimeout x =>
+    left
+    simp only [step]
+    repeat' split
+    all_goals first
+      | exact winKeep_refl _
+      | (apply winKeep_fail; exact winKeep_refl _)
+  | fill n p => left; exact winKeep_refl _
+  | unfill => left; exact winKeep_refl _
+
+theorem findTask_mem {s : St} {x : Nat} {t : Task} (h : findTask s x = some t) : t ∈ s.tasks ∧ t.exch = x := by
+  unfold findTask at h
+  exact ⟨List.mem_of_find?_eq_some h, by simpa using List.find?_some h⟩
+
+/-- window identities are fresh, and what a handshake that expects Pake3 will accept is a proof for
+the verifier of the window whose identity it remembered -/
+structure WidInv (s : St) : Prop where
+  task_lt : ∀ t ∈ s.tasks, ∀ exp wid, t.stage = .waitPake3 exp wid → wid < s.fresh
+  win_lt : ∀ w, s.window = some w → w.id < s.fresh
+  bound : ∀ t ∈ s.tasks, ∀ exp wid w, t.stage = .waitPake3 exp wid → s.window = some w → w.id = wid → exp.pw = w.pw
+
+theorem widInv_init : WidInv {} where
+  task_lt := fun _ h => by cases h
+  win_lt := fun _ h => by cases h
+  bound := fun _ h => by cases h
+
+theorem step_widInv (s : St) (op : Op) (h : WidInv s) : WidInv (step s op).1 := by
+  have hf := step_fresh_le s op
+  have hw := step_window_frame s op
+  have ht := fun t exp wid (h1 : t ∈ (step s op).1.tasks) (h2 : t.stage = .waitPake3 exp wid) =>
+    waitPake3_only_by_valid_pake1 s op t exp wid h1 h2
+  refine ⟨?_, ?_, ?_⟩
+  · intro t h1 exp wid h2
+    rcases ht t exp wid h1 h2 with hold | ⟨a, ctx, w, t0, _, _, _, hwin, _, _, _, _, hwid⟩
+    · exact Nat.lt_of_lt_of_le (h.task_lt t hold exp wid h2) hf
+    · rw [hwid]; exact Nat.lt_of_lt_of_le (h.win_lt w hwin) hf
+  · intro w' hw'
+    rcases hw with hk | ⟨w2, hw2, hid, hfr, _⟩
+    · obtain ⟨w, h0, h1, _, _⟩ := hk w' hw'
+      rw [h1]; exact Nat.lt_of_lt_of_le (h.win_lt w h0) hf
+    · rw [hw2] at hw'; injection hw' with hw'; subst hw'
+      rw [hid, hfr]; exact Nat.lt_succ_self _
+  · intro t h1 exp wid w' h2 hw' hid'
+    rcases hw with hk | ⟨w2, hw2, hid, _, htasks⟩
+    · obtain ⟨w, h0, hi, hp, _⟩ := hk w' hw'
+      rcases ht t exp wid h1 h2 with hold | ⟨a, ctx, w1, t0, _, _, _, hwin, _, hpw, _, _, hwid⟩
+      · rw [hp]; exact h.bound t hold exp wid w h2 h0 (by rw [← hi]; exact hid')
+      · rw [hwin] at h0; injection h0 with h0; subst h0
+        rw [hp]; exact hpw
+    · -- a new window: no handshake can have remembered its identity
+      rw [hw2] at hw'; injection hw' with hw'; subst hw'
+      rw [htasks] at h1
+      have := h.task_lt t h1 exp wid h2
+      omega
+
+/-- **The proof is for the verifier of the window that is open** (basic or enhanced alike): a session
+that a step adds carries the confirmation value of the passcode class of the window that is
+present and unexpired at that moment - under an enhanced window that is the class of the supplied
+verifier, whatever the device's own passcode is. -/
+theorem proof_is_for_the_open_window (s : St) (op : Op) (sess : Sess) (hinv : WidInv s)
+    (hnew : sess ∈ (step s op).1.sessions) (hold : sess ∉ s.sessions) :
+    ∃ w, s.window = some w ∧ s.now ≤ w.expiry ∧ sess.conf.pw = w.pw := by
+  rcases session_implies_proof s op with h | ⟨x, exp, wid, t, w, _, hft, hst, _, hw, hid, hexp, h⟩
+  · rw [h] at hnew; exact absurd hnew hold
+  · rw [h] at hnew
+    rcases List.mem_append.mp hnew with h' | h'
+    · exact absurd h' hold
+    · simp only [List.mem_singleton] at h'
+      subst h'
+      exact ⟨w, hw, hexp, hinv.bound t (findTask_mem hft).1 exp wid w hst hw hid⟩
+
+theorem run_widInv (s : St) (ops : List Op) (h : WidInv s) : WidInv (run s ops) := by
+  induction ops generalizing s with
+  | nil => exact h
+  | cons o os ih => exact ih _ (step_widInv s o h)
+
+/-- … in every history from the initial state -/
+theorem proof_is_for_the_open_window_hist (ops : List Op) (op : Op) (sess : Sess)
+    (hnew : sess ∈ (step (run {} ops) op).1.sessions) (hold : sess ∉ (run {} ops).sessions) :
+    ∃ w, (run {} ops).window = some w ∧ (run {} ops).now ≤ w.expiry ∧ sess.conf.pw = w.pw :=
+  proof_is_for_the_open_window _ op sess (run_widInv {} ops widInv_init) hnew hold
+
+/-! ## Retransmitted / duplicated handshake datagrams never reach the responder -/
+
+/-- the part of the state the property speaks about (everything but the table and the receive counters) -/
+def core (s : St) : Nat × Option Window × Option Marker × List Task × List Sess × Nat :=
+  (s.now, s.window, s.marker, s.tasks, s.sessions, s.fresh)
+
+/-- **a duplicate is only acknowledged**: a datagram whose counter the unsecured session has seen
+changes nothing - window, failure counter, marker, tasks, sessions, table all stay -/
+theorem dup_is_noop (s : St) (ctr x : Nat) (op : Op) (hx : opExch op = some x)
+    (hs : hasUnsec s x = true) (hseen : s.seen.contains (x, ctr) = true) :
+    deliver s ctr op = (s, .ackOnly) := by
+  unfold deliver
+  simp only [hx, hs, hseen, if_true]
+
+/-- after a datagram was delivered, its counter is known to the unsecured session it came on
+(if that session exists: the transport may have had no slot for it) -/
+theorem delivered_is_seen (s : St) (ctr x : Nat) (op : Op) (hx : opExch op = some x)
+    (hs : hasUnsec (deliver s ctr op).1 x = true) : (deliver s ctr op).1.seen.contains (x, ctr) = true := by
+  unfold deliver at hs ⊢
+  simp only [hx] at hs ⊢
+  by_cases h1 : hasUnsec s x = true
+  · simp only [h1, if_true] at hs ⊢
+    by_cases h2 : s.seen.contains (x, ctr) = true
+    · simp only [h2, if_true]
+    · simp only [h2]
+      simp
+  · simp only [h1] at hs ⊢
+    by_cases h3 : isPbkdf op = true
+    · simp only [h3, if_true] at hs ⊢
+      by_cases h4 : hasUnsec (step s op).1 x = true
+      · simp only [h4, if_true]
+        simp
+      · simp only [h4] at hs
+        simp only [hasUnsec] at h4 hs
+        exact absurd hs h4
+    · simp only [h3] at hs
+      exact absurd hs h1
+
+/-- **Delivering the same datagram a second time is a no-op** (for every handshake message, whatever
+the first delivery did - answered, refused and charged, or created the session): it is acknowledged
+and nothing else happens. In particular a retransmitted Pake3 is not charged a second time and
+creates no second session, a retransmitted PBKDFParamRequest starts no second handshake. -/
+theorem redelivery_is_noop (s : St) (ctr x : Nat) (op : Op) (hx : opExch op = some x)
+    (hs : hasUnsec (deliver s ctr op).1 x = true) :
+    deliver (deliver s ctr op).1 ctr op = ((deliver s ctr op).1, .ackOnly) :=
+  dup_is_noop _ ctr x op hx hs (delivered_is_seen s ctr x op hx hs)
+
+/-- what a delivery does to the part of the state the property speaks about: nothing, or what the
+responder's step does -/
+theorem deliver_core (s : St) (ctr : Nat) (op : Op) :
+    core (deliver s ctr op).1 = core s ∨ core (deliver s ctr op).1 = core (step s op).1 := by
+  unfold deliver
+  split
+  · right; rfl
+  · split
+    · split
+      · left; rfl
+      · right; rfl
+    · split
+      · right
+        simp only
+        split <;> rfl
+      · left; rfl
+
+theorem core_sessions {a b : St} (h : core a = core b) : a.sessions = b.sessions := by
+  simp only [core, Prod.mk.injEq] at h; exact h.2.2.2.2.1
+theorem core_window {a b : St} (h : core a = core b) : a.window = b.window := by
+  simp only [core, Prod.mk.injEq] at h; exact h.2.1
+
+/-- the history theorems hold for histories that contain duplicated / re-sent datagrams as well -/
+theorem runEv_sessOK (s : St) (evs : List Ev) (h : ∀ x ∈ s.sessions, SessOK x) :
+    ∀ x ∈ (runEv s evs).sessions, SessOK x := by
+  induction evs generalizing s with
+  | nil => exact h
+  | cons e es ih =>
+    apply ih
+    cases e with
+    | op o => exact step_sessOK s o h
+    | msg c o =>
+      simp only [stepEv]
+      rcases deliver_core s c o with hc | hc
+      · rw [core_sessions hc]; exact h
+      · rw [core_sessions hc]; exact step_sessOK s o h
+
+/-- **For every history with duplicates**: each PASE session was created while the commissioning
+window of its own proof was open and unexpired. -/
+theorem every_session_in_open_window_ev (evs : List Ev) : ∀ x ∈ (runEv {} evs).sessions, SessOK x :=
+  runEv_sessOK {} evs (fun _ hx => by cases hx)
+
+theorem runEv_winInv (s : St) (evs : List Ev) (h : WinInv s.window) : WinInv (runEv s evs).window := by
+  induction evs generalizing s with
+  | nil => exact h
+  | cons e es ih =>
+    apply ih
+    cases e with
+    | op o => exact step_winInv s o h
+    | msg c o =>
+      simp only [stepEv]
+      rcases deliver_core s c o with hc | hc
+      · rw [core_window hc]; exact h
+      · rw [core_window hc]; exact step_winInv s o h
+
+/-- **Revoked after `maxPakeFailures`, duplicates included**: no history - however many datagrams are
+delivered twice - shows an open window with the threshold reached. -/
+theorem revoked_after_max_ev (evs : List Ev) (w : Window) (h : (runEv {} evs).window = some w) :
+    w.failures < maxFailures :=
+  runEv_winInv {} evs winInv_none w h
+
+/-! ## The session table: no half-open handshake state -/
+
+/-- a reserved slot for exchange `y` is in the table -/
+def resv (tbl : List Slot) (y : Nat) : Prop := Slot.reserved y ∈ tbl
+/-- a responder task for exchange `y` is alive -/
+def tk (tasks : List Task) (y : Nat) : Prop := ∃ t ∈ tasks, t.exch = y
+
+theorem resv_release (tbl : List Slot) (x y : Nat) : resv (release tbl x) y ↔ resv tbl y ∧ y ≠ x := by
+  unfold resv release
+  simp only [List.mem_filter, bne_iff_ne, ne_eq, Slot.reserved.injEq]
+
+theorem resv_complete (tbl : List Slot) (x y : Nat) : resv (complete tbl x) y ↔ resv tbl y ∧ y ≠ x := by
+  unfold resv complete
+  simp only [List.mem_map]
+  constructor
+  · rintro ⟨sl, hsl, h⟩
+    split at h
+    · cases h
+    · rename_i hne
+      subst h
+      refine ⟨hsl, ?_⟩
+      intro hxy; subst hxy; simp at hne
+  · rintro ⟨h, hne⟩
+    refine ⟨.reserved y, h, ?_⟩
+    have : (Slot.reserved y == Slot.reserved x) = false := by simpa using hne
+    simp [this]
+
+theorem resv_append_reserved (tbl : List Slot) (x y : Nat) : resv (tbl ++ [.reserved x]) y ↔ resv tbl y ∨ y = x := by
+  unfold resv; simp
+theorem resv_append_unsec (tbl : List Slot) (x y : Nat) : resv (tbl ++ [.unsec x]) y ↔ resv tbl y := by
+  unfold resv; simp
+theorem resv_erase (tbl : List Slot) (sl : Slot) (y : Nat) (h : ∀ x, sl ≠ .reserved x) :
+    resv (tbl.erase sl) y ↔ resv tbl y := by
+  unfold resv
+  exact List.mem_erase_of_ne (fun e => h y e.symm)
+theorem resv_fill (tbl : List Slot) (k : Nat) (p : Bool) (y : Nat) :
+    resv (tbl ++ List.replicate k (.filler p)) y ↔ resv tbl y := by
+  unfold resv; simp [List.mem_replicate]
+theorem resv_unfill (tbl : List Slot) (y : Nat) :
+    resv (tbl.filter notFiller) y ↔ resv tbl y := by
+  unfold resv; simp [List.mem_filter, notFiller]
+
+theorem tk_filter (tasks : List Task) (x y : Nat) : tk (tasks.filter (·.exch != x)) y ↔ tk tasks y ∧ y ≠ x := by
+  unfold tk
+  simp only [List.mem_filter, bne_iff_ne, ne_eq]
+  constructor
+  · rintro ⟨t, ⟨ht, hne⟩, rfl⟩; exact ⟨⟨t, ht, rfl⟩, hne⟩
+  · rintro ⟨⟨t, ht, rfl⟩, hne⟩; exact ⟨t, ⟨ht, hne⟩, rfl⟩
+theorem tk_cons (t : Task) (tasks : List Task) (y : Nat) : tk (t :: tasks) y ↔ t.exch = y ∨ tk tasks y := by
+  unfold tk; simp
+
+theorem tk_of_find {s : St} {x : Nat} {t : Task} (h : findTask s x = some t) : tk s.tasks x :=
+  ⟨t, (findTask_mem h).1, (findTask_mem h).2⟩
+theorem not_tk_of_find_none {s : St} {x : Nat} (h : findTask s x = none) : ¬ tk s.tasks x := by
+  rintro ⟨t, ht, hx⟩
+  unfold findTask at h
+  have := List.find?_eq_none.mp h t ht
+  simp [hx] at this
+
+@[simp] theorem checkWindowTimeout_table (s : St) : (checkWindowTimeout s).table = s.table := by
+  unfold checkWindowTimeout; splits
+@[simp] theorem recordFailure_table (s : St) : (recordFailure s).table = s.table := by
+  unfold recordFailure; simp only; splits
+@[simp] theorem updateSessionTimeout_table (s : St) (x : Nat) (n : Bool) :
+    (updateSessionTimeout s x n).1.table = s.table := by
+  unfold updateSessionTimeout; simp only; splits
+@[simp] theorem checkWindowTimeout_marker (s : St) : (checkWindowTimeout s).marker = s.marker := by
+  unfold checkWindowTimeout; splits
+@[simp] theorem recordFailure_marker (s : St) : (recordFailure s).marker = none := by
+  unfold recordFailure; simp only; splits
+@[simp] theorem failTask_table (s : St) (x : Nat) : (failTask s x).table = release s.table x := by
+  simp [failTask, removeTask]
+@[simp] theorem failTask_tasks (s : St) (x : Nat) : (failTask s x).tasks = s.tasks.filter (·.exch != x) := by
+  simp [failTask, removeTask]
+@[simp] theorem failTask_marker (s : St) (x : Nat) : (failTask s x).marker = none := by
+  simp [failTask]
+
+/-- `update_session_timeout` lets the handshake go on: it now holds the marker -/
+theorem ust_none {s : St} {x : Nat} {n : Bool} (h : (updateSessionTimeout s x n).2 = none) :
+    (updateSessionTimeout s x n).1.marker = some { exch := x, deadline := s.now + estTimeoutMs } := by
+  unfold updateSessionTimeout at h ⊢
+  cases hm : s.marker with
+  | none =>
+    simp only [hm] at h ⊢
+    cases n <;> simp_all
+  | some m =>
+    simp only [hm] at h ⊢
+    by_cases he : s.now > m.deadline
+    · simp only [he, if_true] at h ⊢
+      cases n <;> simp_all
+    · simp only [he, if_false, hm] at h ⊢
+      by_cases hx : (m.exch != x) = true
+      · simp [hx] at h
+      · simp [hx]
+
+/-- `update_session_timeout` answers `Busy` / `SessionNotFound`: the marker, if any, is another exchange's and untouched -/
+theorem ust_some {s : St} {x : Nat} {n : Bool} {o : Out} (h : (updateSessionTimeout s x n).2 = some o) :
+    ∀ m, (updateSessionTimeout s x n).1.marker = some m → s.marker = some m ∧ m.exch ≠ x := by
+  unfold updateSessionTimeout at h ⊢
+  intro m' hm'
+  cases hm : s.marker with
+  | none =>
+    simp only [hm] at h hm'
+    cases n <;> simp_all
+  | some m =>
+    simp only [hm] at h hm'
+    by_cases he : s.now > m.deadline
+    · simp only [he, if_true] at h hm'
+      cases n <;> simp_all
+    · simp only [he, if_false, hm] at h hm'
+      by_cases hx : (m.exch != x) = true
+      · simp only [hx, if_true] at hm'
+        simp only [hm] at hm'
+        injection hm' with hm'
+        subst hm'
+        exact ⟨rfl, by simpa using hx⟩
+      · simp [hx] at h
+
+/-- **No half-open handshake state**: a reserved slot is in the session table exactly as long as the
+responder task of its exchange is alive, the in-progress marker always belongs to a live task, and
+the table never exceeds its capacity -/
+structure TableInv (s : St) : Prop where
+  reserved_iff : ∀ y, resv s.table y ↔ tk s.tasks y
+  marker_task : ∀ m, s.marker = some m → tk s.tasks m.exch
+  cap : s.table.length ≤ maxSessions
+
+theorem tableInv_init : TableInv {} where
+  reserved_iff := fun y => by simp [resv, tk]
+  marker_task := fun _ h => by cases h
+  cap := Nat.zero_le _
+
+theorem release_length_le (tbl : List Slot) (x : Nat) : (release tbl x).length ≤ tbl.length :=
+  List.length_filter_le _ _
+theorem complete_length (tbl : List Slot) (x : Nat) : (complete tbl x).length = tbl.length := by
+  simp [complete]
+
+theorem evictPick_eligible {s : St} {cur : Option Nat} {v : Option VClass} {sl : Slot}
+    (h : evictPick s cur v = some sl) : eligible s cur sl = true := by
+  unfold evictPick at h
+  simp only at h
+  split at h
+  · rename_i sl' hp
+    injection h with h; subst h
+    split at hp
+    · have := List.find?_some hp
+      simp only [Bool.and_eq_true] at this
+      exact this.1
+    · cases hp
+  · exact List.find?_some h
+
+theorem evictPick_not_reserved {s : St} {cur : Option Nat} {v : Option VClass} {sl : Slot}
+    (h : evictPick s cur v = some sl) : ∀ x, sl ≠ .reserved x := by
+  intro x hx
+  have := evictPick_eligible h
+  rw [hx] at this
+  simp [eligible] at this
+
+theorem removeSlot_resv (s : St) (sl : Slot) (y : Nat) (h : ∀ x, sl ≠ .reserved x) :
+    resv (removeSlot s sl).table y ↔ resv s.table y := resv_erase s.table sl y h
+theorem removeSlot_len (s : St) (sl : Slot) : (removeSlot s sl).table.length ≤ s.table.length :=
+  List.length_erase_le
+
+theorem evictOne_resv (s : St) (v : Option VClass) (y : Nat) : resv (evictOne s v).table y ↔ resv s.table y := by
+  unfold evictOne
+  split
+  · rename_i sl h; exact removeSlot_resv s sl y (evictPick_not_reserved h)
+  · exact Iff.rfl
+theorem evictOne_len (s : St) (v : Option VClass) : (evictOne s v).table.length ≤ s.table.length := by
+  unfold evictOne
+  split
+  · exact removeSlot_len _ _
+  · exact Nat.le_refl _
+
+theorem addSlot_table {s s' : St} {sl : Slot} (h : addSlot s sl = some s') :
+    s'.table = s.table ++ [sl] ∧ s.table.length < maxSessions := by
+  unfold addSlot at h
+  split at h
+  · rename_i hl; injection h with h; subst h; exact ⟨rfl, hl⟩
+  · cases h
+
+theorem reserve_table {s s' : St} {x : Nat} {v : Option VClass} (h : reserve s x v = some s') :
+    (∀ y, resv s'.table y ↔ resv s.table y ∨ y = x) ∧ s'.table.length ≤ maxSessions := by
+  unfold reserve at h
+  split at h
+  · rename_i s1 h1
+    injection h with h; subst h
+    obtain ⟨ht, hl⟩ := addSlot_table h1
+    refine ⟨fun y => by rw [ht]; exact resv_append_reserved _ _ _, by rw [ht]; simp; omega⟩
+  · split at h
+    · rename_i sl hp
+      obtain ⟨ht, hl⟩ := addSlot_table h
+      refine ⟨fun y => ?_, by rw [ht]; simp; omega⟩
+      rw [ht, resv_append_reserved, removeSlot_resv s sl y (evictPick_not_reserved hp)]
+    · cases h
+
+theorem pbkdfNew_tableInv {s : St} (x : Nat) (r : Req) (v : Option VClass) (h : TableInv s)
+    (hx : ¬ tk s.tasks x) : TableInv (pbkdfNew s x r v).1 := by
+  have hnr : ¬ resv s.table x := fun hr => hx ((h.reserved_iff x).mp hr)
+  unfold pbkdfNew
+  split
+  · exact ⟨by simpa using h.reserved_iff, by simp, by simpa using h.cap⟩
+  · rename_i s1 h1
+    obtain ⟨_, _, hct, _, hcm, _⟩ := reserve_core h1
+    obtain ⟨hr, hl⟩ := reserve_table h1
+    simp only
+    split
+    · -- `Busy`: the reservation is given back
+      rename_i o ho
+      refine ⟨fun y => ?_, fun m hm => ?_, ?_⟩
+      · simp only [updateSessionTimeout_table, updateSessionTimeout_tasks, resv_release, hr, hct]
+        have := h.reserved_iff y
+        grind
+      · simp only [updateSessionTimeout_tasks, hct]
+        obtain ⟨h1m, _⟩ := ust_some ho m hm
+        exact h.marker_task m (by rw [← hcm]; exact h1m)
+      · simp only [updateSessionTimeout_table]
+        exact Nat.le_trans (release_length_le _ _) hl
+    · rename_i hnone
+      split
+      · -- no window: silently dropped
+        refine ⟨fun y => ?_, (fun m hm => by cases hm), ?_⟩
+        · simp only [checkWindowTimeout_table, checkWindowTimeout_tasks, updateSessionTimeout_table,
+            updateSessionTimeout_tasks, resv_release, hr, hct]
+          have := h.reserved_iff y
+          grind
+        · simp only [checkWindowTimeout_table, updateSessionTimeout_table]
+          exact Nat.le_trans (release_length_le _ _) hl
+      · split
+        · -- PBKDFParamResponse: the task lives, holding its slot and the marker
+          refine ⟨fun y => ?_, fun m hm => ?_, ?_⟩
+          · simp only [setTask, checkWindowTimeout_table, checkWindowTimeout_tasks, updateSessionTimeout_table,
+              updateSessionTimeout_tasks, hr, hct, tk_cons, tk_filter]
+            have := h.reserved_iff y
+            grind
+          · simp only [setTask, checkWindowTimeout_marker, ust_none hnone] at hm
+            injection hm with hm; subst hm
+            simp only [setTask, tk_cons]
+            left; trivial
+          · simp only [setTask, checkWindowTimeout_table, updateSessionTimeout_table]
+            exact hl
+        · refine ⟨fun y => ?_, (fun m hm => by simp at hm), ?_⟩
+          · simp only [recordFailure_table, recordFailure_tasks, checkWindowTimeout_table, checkWindowTimeout_tasks,
+              updateSessionTimeout_table, updateSessionTimeout_tasks, resv_release, hr, hct]
+            have := h.reserved_iff y
+            grind
+          · simp only [recordFailure_table, checkWindowTimeout_table, updateSessionTimeout_table]
+            exact Nat.le_trans (release_length_le _ _) hl
+
+
+theorem tableInv_congr {s u : St} (h : TableInv s) (ht : u.tasks = s.tasks) (htb : u.table = s.table)
+    (hm : u.marker = s.marker) : TableInv u :=
+  ⟨by rw [ht, htb]; exact h.reserved_iff, by rw [ht, hm]; exact h.marker_task, by rw [htb]; exact h.cap⟩
+
+/-- a task returns (its reservation, if not completed, goes with it); the marker that remains is another exchange's -/
+theorem tableInv_removeTask {s u : St} {x : Nat} (h : TableInv s) (ht : u.tasks = s.tasks)
+    (htb : ∀ y, resv u.table y → resv s.table y) (htb2 : ∀ y, y ≠ x → resv s.table y → resv u.table y)
+    (hl : u.table.length ≤ maxSessions)
+    (hm : ∀ m, u.marker = some m → s.marker = some m ∧ m.exch ≠ x) : TableInv (removeTask u x) := by
+  refine ⟨fun y => ?_, fun m hm' => ?_, Nat.le_trans (release_length_le _ _) hl⟩
+  · simp only [removeTask, resv_release, tk_filter, ht]
+    have := h.reserved_iff y
+    have := htb y
+    have := htb2 y
+    grind
+  · simp only [removeTask, tk_filter, ht]
+    obtain ⟨h1, h2⟩ := hm m hm'
+    exact ⟨h.marker_task m h1, h2⟩
+
+theorem tableInv_failTask {s u : St} {x : Nat} (h : TableInv s) (ht : u.tasks = s.tasks) (htb : u.table = s.table) :
+    TableInv (failTask u x) := by
+  refine ⟨fun y => ?_, (fun m hm' => by simp at hm'), ?_⟩
+  · simp only [failTask_table, failTask_tasks, resv_release, tk_filter, ht, htb]
+    have := h.reserved_iff y
+    grind
+  · simp only [failTask_table, htb]
+    exact Nat.le_trans (release_length_le _ _) h.cap
+
+/-- **For every step**: no half-open state is created -/
+theorem step_tableInv (s : St) (op : Op) (h : TableInv s) : TableInv (step s op).1 := by
+  cases op with
+  | openWin pw secs =>
+    simp only [step, openWinCore]
+    repeat' split
+    all_goals exact tableInv_congr h rfl rfl rfl
+  | openEnh pw secs sl it d =>
+    simp only [step, openEnhCore]
+    repeat' split
+    all_goals exact tableInv_congr h rfl rfl rfl
+  | cmdOpenEnh pw secs sl it d vl =>
+    simp only [step, openEnhCore]
+    repeat' split
+    all_goals exact tableInv_congr h (by simp) (by simp) (by simp)
+  | cmdOpenBasic pw secs =>
+    simp only [step, openWinCore]
+    repeat' split
+    all_goals exact tableInv_congr h (by simp) (by simp) (by simp)
+  | revoke => exact tableInv_congr h rfl rfl rfl
+  | tick ms => exact tableInv_congr h rfl rfl rfl
+  | poll => exact tableInv_congr h (by simp [step]) (by simp [step]) (by simp [step])
+  | fill n p =>
+    simp only [step]
+    refine ⟨fun y => ?_, h.marker_task, ?_⟩
+    · simp only [resv_fill]; exact h.reserved_iff y
+    · have := h.cap
+      simp only [List.length_append, List.length_replicate]
+      omega
+  | unfill =>
+    simp only [step]
+    refine ⟨fun y => ?_, h.marker_task, Nat.le_trans (List.length_filter_le _ _) h.cap⟩
+    simp only [resv_unfill]; exact h.reserved_iff y
+  | pbkdf x r v =>
+    simp only [step]
+    split
+    · split
+      · rename_i o ho
+        exact tableInv_removeTask h (by simp) (by simp) (by simp) (by simpa using h.cap) (ust_some ho)
+      · exact tableInv_failTask h (by simp) (by simp)
+    · rename_i hnone
+      split
+      · refine ⟨fun y => ?_, ?_, Nat.le_trans (evictOne_len _ _) h.cap⟩
+        · rw [evictOne_resv, evictOne_tasks]; exact h.reserved_iff y
+        · rw [evictOne_marker, evictOne_tasks]; exact h.marker_task
+      · rename_i s1 h1
+        obtain ⟨_, _, hct, _, hcm, _⟩ := addSlot_core h1
+        obtain ⟨htb, hlen⟩ := addSlot_table h1
+        apply pbkdfNew_tableInv
+        · refine ⟨fun y => ?_, ?_, ?_⟩
+          · rw [htb, resv_append_unsec, hct]; exact h.reserved_iff y
+          · rw [hcm, hct]; exact h.marker_task
+          · rw [htb]; simp; omega
+        · rw [hct]; exact not_tk_of_find_none hnone
+  | pake1 x p =>
+    simp only [step]
+    split
+    · exact h
+    · rename_i t hft
+      split
+      · rename_i o ho
+        exact tableInv_removeTask h (by simp) (by simp) (by simp) (by simpa using h.cap) (ust_some ho)
+      · rename_i hnone
+        split
+        · exact tableInv_failTask h (by simp) (by simp)
+        · split
+          · exact tableInv_failTask h (by simp) (by simp)
+          · split
+            · exact tableInv_removeTask h (by simp) (by simp) (by simp) (by simpa using h.cap) (by simp)
+            · split
+              · -- Pake2: the task goes on, still holding slot and marker
+                refine ⟨fun y => ?_, fun m hm => ?_, by simpa [setTask] using h.cap⟩
+                · simp only [setTask, checkWindowTimeout_table, checkWindowTimeout_tasks, updateSessionTimeout_table,
+                    updateSessionTimeout_tasks, tk_cons, tk_filter]
+                  have := h.reserved_iff y
+                  have := tk_of_find hft
+                  grind
+                · simp only [setTask, checkWindowTimeout_marker, ust_none hnone] at hm
+                  injection hm with hm; subst hm
+                  simp only [setTask, tk_cons]
+                  left; trivial
+              · exact tableInv_failTask h (by simp) (by simp)
+  | pake3 x c =>
+    simp only [step]
+    split
+    · exact h
+    · rename_i t hft
+      split
+      · rename_i o ho
+        exact tableInv_removeTask h (by simp) (by simp) (by simp) (by simpa using h.cap) (ust_some ho)
+      · repeat' split
+        all_goals first
+          | exact tableInv_failTask h (by simp) (by simp)
+          | exact tableInv_removeTask h (by simp) (by simp) (by simp) (by simpa using h.cap) (by simp)
+          | -- the session is established: the reserved slot becomes the PASE session
+            (refine tableInv_removeTask h (by simp) ?_ ?_ ?_ (by simp)
+             · intro y hy
+               simp only [checkWindowTimeout_table, updateSessionTimeout_table] at hy
+               exact ((resv_complete _ _ _).mp hy).1
+             · intro y hne hy
+               simp only [checkWindowTimeout_table, updateSessionTimeout_table]
+               exact (resv_complete _ _ _).mpr ⟨hy, hne⟩
+             · simp only [checkWindowTimeout_table, updateSessionTimeout_table, complete_length]
+               exact h.cap)
+  | other x =>
+    simp only [step]
+    split
+    · exact h
+    · split
+      · rename_i o ho
+        exact tableInv_removeTask h (by simp) (by simp) (by simp) (by simpa using h.cap) (ust_some ho)
+      · exact tableInv_failTask h (by simp) (by simp)
+  | dead x =>
+    simp only [step]
+    split
+    · exact h
+    · exact tableInv_failTask h rfl rfl
+  | rxTimeout x =>
+    simp only [step]
+    split
+    · exact h
+    · split
+      · exact tableInv_failTask h rfl rfl
+      · exact h
+
+
+theorem deliver_tableInv (s : St) (ctr : Nat) (op : Op) (h : TableInv s) : TableInv (deliver s ctr op).1 := by
+  have hs := step_tableInv s op h
+  unfold deliver
+  split
+  · exact hs
+  · split
+    · split
+      · exact h
+      · exact tableInv_congr hs rfl rfl rfl
+    · split
+      · simp only
+        split
+        · exact tableInv_congr hs rfl rfl rfl
+        · exact hs
+      · exact h
+
+theorem runEv_tableInv (s : St) (evs : List Ev) (h : TableInv s) : TableInv (runEv s evs) := by
+  induction evs generalizing s with
+  | nil => exact h
+  | cons e es ih =>
+    apply ih
+    cases e with
+    | op o => exact step_tableInv s o h
+    | msg c o => exact deliver_tableInv s c o h
+
+/-- **No half-open state, in every history** (API calls, time, handshake messages in any order,
+duplicated datagrams, other sessions filling the table, evictions): a reserved session slot exists
+exactly while the responder task of its exchange is alive; the in-progress marker always belongs
+to a live task; the table never holds more than `MAX_SESSIONS` entries. -/
+theorem no_half_open (evs : List Ev) : TableInv (runEv {} evs) := runEv_tableInv {} evs tableInv_init
+
+/-- **No slot for the unsecured session** (`decode_packet` ⇒ `NoSpaceSessions`): the initiator is told
+`Busy`, at most one evictable session leaves the table, and nothing else happens - no task, no
+reservation, the marker, the window and its failure counter are untouched -/
+theorem transport_busy_is_noop (s : St) (x : Nat) (r : Req) (v : Option VClass)
+    (hx : findTask s x = none) (hfull : addSlot s (.unsec x) = none) :
+    (step s (.pbkdf x r v)).2 = .transportBusy ∧ core (step s (.pbkdf x r v)).1 = core s ∧
+      ∀ y, resv (step s (.pbkdf x r v)).1.table y ↔ resv s.table y := by
+  have hstep : step s (.pbkdf x r v) = (evictOne s v, .transportBusy) := by
+    simp only [step, hx, hfull]
+  rw [hstep]
+  refine ⟨rfl, ?_, fun y => evictOne_resv s v y⟩
+  simp [core]
+
+/-- **The reservation fails** (the unsecured session got the last slot and no session can be
+evicted): the responder returns with an error before it has looked at the message. What the code
+does: nothing is answered, no task and no reserved slot remain, the marker is cleared - *whoever
+held it* - and the failure is charged to the window like a failed proof (revoking it at the threshold). -/
+theorem reservation_failure (s s1 : St) (x : Nat) (r : Req) (v : Option VClass)
+    (hx : findTask s x = none) (hslot : addSlot s (.unsec x) = some s1) (hres : reserve s1 x v = none) :
+    step s (.pbkdf x r v) = (recordFailure s1, .none) ∧
+    (step s (.pbkdf x r v)).1.marker = none ∧
+    (step s (.pbkdf x r v)).1.tasks = s.tasks ∧
+    (step s (.pbkdf x r v)).1.sessions = s.sessions ∧
+    (step s (.pbkdf x r v)).1.table = s.table ++ [.unsec x] ∧
+    (step s (.pbkdf x r v)).1.window =
+      match s.window with
+      | some w => if w.failures + 1 ≥ maxFailures then none else some { w with failures := w.failures + 1 }
+      | none => none := by
+  have hstep : step s (.pbkdf x r v) = (recordFailure s1, .none) := by
+    simp only [step, hx, hslot, pbkdfNew, hres]
+  obtain ⟨hs, hw, ht, _, _, _⟩ := addSlot_core hslot
+  refine ⟨hstep, ?_, ?_, ?_, ?_, ?_⟩
+  · rw [hstep]; simp
+  · rw [hstep]; simp [ht]
+  · rw [hstep]; simp [hs]
+  · rw [hstep]; simp [(addSlot_table hslot).1]
+  · rw [hstep, recordFailure_window, hw]
+
+theorem evictPick_mem {s : St} {cur : Option Nat} {v : Option VClass} {sl : Slot}
+    (h : evictPick s cur v = some sl) : sl ∈ s.table := by
+  unfold evictPick at h
+  simp only at h
+  split at h
+  · rename_i sl' hp
+    injection h with h; subst h
+    split at hp
+    · exact List.mem_of_find?_eq_some hp
+    · cases hp
+  · exact List.mem_of_find?_eq_some h
+
+theorem evictPick_none_iff (s : St) (cur : Option Nat) (v : Option VClass) :
+    evictPick s cur v = none ↔ ∀ sl ∈ s.table, eligible s cur sl = false := by
+  constructor
+  · intro hp sl hsl
+    unfold evictPick at hp
+    simp only at hp
+    split at hp
+    · cases hp
+    · have := List.find?_eq_none.mp hp sl hsl
+      simpa using this
+  · intro hall
+    unfold evictPick
+    simp only
+    have h2 : s.table.find? (eligible s cur) = none := by
+      apply List.find?_eq_none.mpr
+      intro sl hsl; simp [hall sl hsl]
+    split
+    · rename_i sl' hp'
+      split at hp'
+      · have := List.find?_some hp'
+        have hm := List.mem_of_find?_eq_some hp'
+        simp [hall _ hm] at this
+      · cases hp'
+    · exact h2
+
+/-- **when the reservation fails**: exactly when the table is full and every session in it is
+reserved or has an active exchange (then nothing can be evicted) -/
+theorem reserve_none_iff (s : St) (x : Nat) (v : Option VClass) (hcap : s.table.length ≤ maxSessions) :
+    reserve s x v = none ↔ s.table.length = maxSessions ∧ ∀ sl ∈ s.table, eligible s (some x) sl = false := by
+  unfold reserve addSlot
+  by_cases hl : s.table.length < maxSessions
+  · simp only [hl, if_true]
+    constructor
+    · intro h; cases h
+    · intro ⟨h, _⟩; omega
+  · simp only [hl, if_false]
+    rw [← evictPick_none_iff]
+    constructor
+    · intro h
+      refine ⟨by omega, ?_⟩
+      split at h
+      · rename_i sl hp
+        exfalso
+        have hmem := evictPick_mem hp
+        have hlen : (removeSlot s sl).table.length < maxSessions := by
+          simp only [removeSlot, List.length_erase_of_mem hmem]
+          have : 0 < s.table.length := List.length_pos_of_mem hmem
+          omega
+        simp [hlen] at h
+      · rename_i hp; exact hp
+    · intro ⟨_, hp⟩
+      simp [hp]
+
+/-! ## The responder's receive timeout (`Session::rx_timeout_ms`) and the 60 s marker -/
+
+/-- the receive timeout for a peer that advertises no session parameters, from the extracted MRP
+constants: two retransmission ladders (4226 ms each) and the 30 s processing allowance -/
+theorem rxTimeout_default : rxTimeoutMs defaultMrp localActiveMs = 38452 := by decide
+theorem sendLadder_default : sendLadderMs defaultMrp = 4226 := by decide
+
+/-- **the receive timeout lies inside the marker's 60 s**, even counted from the latest instant the
+timer can have been armed (one whole ladder after the responder's answer) -/
+theorem rx_timeout_before_marker :
+    rxTimeoutMs defaultMrp localActiveMs + sendLadderMs defaultMrp < estTimeoutMs := by decide
+
+/-- the timer cannot fire before `rx_timeout_ms` has passed since the responder's last answer -/
+theorem rxTimeout_not_before (s : St) (x : Nat) (t : Task) (h : findTask s x = some t)
+    (hearly : s.now < t.since + rxTimeoutMs t.mrp localActiveMs) : step s (.rxTimeout x) = (s, .none) := by
+  have : ¬ (s.now ≥ t.since + rxTimeoutMs t.mrp localActiveMs) := by omega
+  simp only [step, h, this, if_false]
+
+/-- **an idle handshake is charged**: when the timer fires the task ends with an error - the marker
+is cleared and the window's failure counter moves (or the window is revoked at the threshold) -/
+theorem rxTimeout_charges (s : St) (x : Nat) (t : Task) (h : findTask s x = some t)
+    (hlate : s.now ≥ t.since + rxTimeoutMs t.mrp localActiveMs) :
+    step s (.rxTimeout x) = (failTask s x, .none) ∧ (step s (.rxTimeout x)).1.marker = none ∧
+    (step s (.rxTimeout x)).1.window =
+      match s.window with
+      | some w => if w.failures + 1 ≥ maxFailures then none else some { w with failures := w.failures + 1 }
+      | none => none := by
+  have hstep : step s (.rxTimeout x) = (failTask s x, .none) := by simp only [step, h, hlate, if_true]
+  rw [hstep]
+  refine ⟨rfl, by simp, ?_⟩
+  simp only [failTask, recordFailure_window, removeTask_window]
+
+/-- the marker held by a live handshake runs for 60 s from the responder's last answer -/
+def HolderInv (s : St) : Prop :=
+  ∀ m, s.marker = some m → ∀ t ∈ s.tasks, t.exch = m.exch → m.deadline = t.since + estTimeoutMs
+
+theorem holder_none {u : St} (h : u.marker = none) : HolderInv u := fun m hm => by rw [h] at hm; cases hm
+
+theorem holder_congr {s u : St} (h : HolderInv s) (ht : u.tasks = s.tasks) (hm : u.marker = s.marker) : HolderInv u := by
+  intro m hm' t ht'
+  rw [hm] at hm'; rw [ht] at ht'
+  exact h m hm' t ht'
+
+theorem holder_removeTask {s u : St} {x : Nat} (h : HolderInv s) (ht : u.tasks = s.tasks)
+    (hm : ∀ m, u.marker = some m → s.marker = some m ∧ m.exch ≠ x) : HolderInv (removeTask u x) := by
+  intro m hm' t ht' hx
+  simp only [removeTask, List.mem_filter, ht] at ht'
+  exact h m (hm m hm').1 t ht'.1 hx
+
+theorem holder_setTask {u : St} {t : Task} {n : Nat}
+    (hm : u.marker = some { exch := t.exch, deadline := n + estTimeoutMs }) (hs : t.since = n) :
+    HolderInv (setTask u t) := by
+  intro m hm' t' ht' hx
+  simp only [setTask] at hm' ht'
+  rw [hm] at hm'
+  injection hm' with hm'
+  subst hm'
+  simp only [List.mem_cons, List.mem_filter] at ht'
+  rcases ht' with h1 | h1
+  · subst h1; rw [hs]
+  · exact absurd hx (by simpa using h1.2)
+
+theorem pbkdfNew_holder {s : St} (x : Nat) (r : Req) (v : Option VClass) (h : HolderInv s)
+    (hx : ¬ tk s.tasks x) : HolderInv (pbkdfNew s x r v).1 := by
+  unfold pbkdfNew
+  split
+  · exact holder_none (by simp)
+  · rename_i s1 h1
+    obtain ⟨_, _, hct, hcn, hcm, _⟩ := reserve_core h1
+    simp only
+    split
+    · rename_i o ho
+      intro m hm t ht hxm
+      simp only [updateSessionTimeout_tasks, hct] at ht
+      have := (ust_some ho m hm).1
+      rw [hcm] at this
+      exact h m this t ht hxm
+    · rename_i hnone
+      split
+      · exact holder_none rfl
+      · split
+        · apply holder_setTask (n := s1.now)
+          · simp only [checkWindowTimeout_marker, ust_none hnone]
+          · simp
+        · exact holder_none (by simp)
+
+theorem step_holder (s : St) (op : Op) (h : HolderInv s) : HolderInv (step s op).1 := by
+  cases op with
+  | openWin pw secs => simp only [step, openWinCore]; repeat' split
+                       all_goals exact holder_congr h rfl rfl
+  | openEnh pw secs sl it d => simp only [step, openEnhCore]; repeat' split
+                               all_goals exact holder_congr h rfl rfl
+  | cmdOpenEnh pw secs sl it d vl => simp only [step, openEnhCore]; repeat' split
+                                     all_goals exact holder_congr h (by simp) (by simp)
+  | cmdOpenBasic pw secs => simp only [step, openWinCore]; repeat' split
+                            all_goals exact holder_congr h (by simp) (by simp)
+  | revoke => exact holder_congr h rfl rfl
+  | tick ms => exact holder_congr h rfl rfl
+  | poll => exact holder_congr h (by simp [step]) (by simp [step])
+  | fill n p => exact holder_congr h rfl rfl
+  | unfill => exact holder_congr h rfl rfl
+  | pbkdf x r v =>
+    simp only [step]
+    split
+    · split
+      · rename_i o ho; exact holder_removeTask h (by simp) (ust_some ho)
+      · exact holder_none (by simp)
+    · rename_i hnone
+      split
+      · exact holder_congr h (by simp) (by simp)
+      · rename_i s1 h1
+        obtain ⟨_, _, hct, _, hcm, _⟩ := addSlot_core h1
+        apply pbkdfNew_holder
+        · exact holder_congr h hct hcm
+        · rw [hct]; exact not_tk_of_find_none hnone
+  | pake1 x p =>
+    simp only [step]
+    split
+    · exact h
+    · rename_i t hft
+      split
+      · rename_i o ho; exact holder_removeTask h (by simp) (ust_some ho)
+      · rename_i hnone
+        repeat' split
+        all_goals first
+          | (apply holder_setTask (n := s.now)
+             · simp [ust_none hnone]
+             · simp)
+          | exact holder_none rfl
+          | exact holder_none (by simp)
+  | pake3 x c =>
+    simp only [step]
+    split
+    · exact h
+    · split
+      · rename_i o ho; exact holder_removeTask h (by simp) (ust_some ho)
+      · repeat' split
+        all_goals first
+          | exact holder_none rfl
+          | exact holder_none (by simp)
+  | other x =>
+    simp only [step]
+    split
+    · exact h
+    · split
+      · rename_i o ho; exact holder_removeTask h (by simp) (ust_some ho)
+      · exact holder_none (by simp)
+  | dead x =>
+    simp only [step]
+    split
+    · exact h
+    · exact holder_none (by simp)
+  | rxTimeout x =>
+    simp only [step]
+    split
+    · exact h
+    · split
+      · exact holder_none (by simp)
+      · exact h
+
+theorem run_holder (s : St) (ops : List Op) (h : HolderInv s) : HolderInv (run s ops) := by
+  induction ops generalizing s with
+  | nil => exact h
+  | cons o os ih => exact ih _ (step_holder s o h)
+
+/-- **In every history, the marker of a handshake whose peer advertised no session parameters is
+still valid whenever its receive timer can fire**: from the responder's last answer the timer fires
+within `rx_timeout_ms` + one ladder = 42678 ms, the marker runs 60000 ms. So a handshake that idles
+is ended by the receive timeout and *charged as a failure* - the marker's own expiry (which would
+answer `SessionNotFound` without charging) is never reached by such a handshake. -/
+theorem idle_handshake_charged_before_marker_expires (ops : List Op) (x : Nat) (t : Task) (m : Marker)
+    (ht : findTask (run {} ops) x = some t) (hm : (run {} ops).marker = some m) (hx : m.exch = x)
+    (hmrp : t.mrp = defaultMrp)
+    (hnow : (run {} ops).now ≤ t.since + rxTimeoutMs t.mrp localActiveMs + sendLadderMs t.mrp) :
+    (run {} ops).now < m.deadline := by
+  have hinv : HolderInv (run {} ops) := run_holder {} ops (holder_none rfl)
+  have hd := hinv m hm t (findTask_mem ht).1 (by rw [(findTask_mem ht).2, hx])
+  rw [hmrp] at hnow
+  have := rx_timeout_before_marker
+  omega
+
+
 /-- the threshold of the code is the property's *twenty* (breaks if the constant is changed) -/
 theorem threshold_is_twenty : maxFailures = 20 := by decide
 
@@ -431,7 +1858,7 @@ theorem threshold_is_twenty : maxFailures = 20 := by decide
 namespace Ex
 /-- ids are drawn from `fresh`: window id 0, transcript 1, responder share 2 -/
 def conf : Conf := { pw := 7, ctx := 1, pA := 5, pB := 2 }
-def honest : List Op := [.openWin 7 180, .pbkdf 1 .good, .pake1 1 (.valid 5), .pake3 1 (.mac conf)]
+def honest : List Op := [.openWin 7 180, .pbkdf 1 .good none, .pake1 1 (.valid 5), .pake3 1 (.mac conf)]
 
 /-- the honest run ends with one session, created in the open window of its own proof -/
 example : (run {} honest).sessions =
@@ -444,13 +1871,13 @@ example : ∃ s sess, sess ∈ (step s (.pake3 1 (.mac conf))).1.sessions ∧ se
     by decide, by decide⟩
 
 /-- **the finding's history**: window revoked between Pake1 and Pake3 — no session, the message is dropped -/
-example : (run {} [.openWin 7 180, .pbkdf 1 .good, .pake1 1 (.valid 5), .revoke, .pake3 1 (.mac conf)]).sessions = [] := by
+example : (run {} [.openWin 7 180, .pbkdf 1 .good none, .pake1 1 (.valid 5), .revoke, .pake3 1 (.mac conf)]).sessions = [] := by
   decide
 /-- … window expired between Pake1 and Pake3 (no poll in between) -/
-example : (run {} [.openWin 7 180, .tick 170000, .pbkdf 1 .good, .pake1 1 (.valid 5), .tick 20000,
+example : (run {} [.openWin 7 180, .tick 170000, .pbkdf 1 .good none, .pake1 1 (.valid 5), .tick 20000,
     .pake3 1 (.mac conf)]).sessions = [] := by decide
 /-- … window replaced by another one between Pake1 and Pake3 -/
-example : (run {} [.openWin 7 180, .pbkdf 1 .good, .pake1 1 (.valid 5), .revoke, .openWin 8 180,
+example : (run {} [.openWin 7 180, .pbkdf 1 .good none, .pake1 1 (.valid 5), .revoke, .openWin 8 180,
     .pake3 1 (.mac conf)]).sessions = [] := by decide
 
 /-- `wrong_passcode_never`: its hypothesis is satisfiable (the handshake expects passcode class 7) -/
@@ -458,10 +1885,86 @@ example : (step (run {} (honest.take 3)) (.pake3 1 (.mac { conf with pw := 8 }))
 /-- `failed_proof_counted`: hypotheses satisfiable, and the counter moves 0 → 1 -/
 example : ((step (run {} (honest.take 3)) (.pake3 1 (.junk 0))).1.window.map (·.failures)) = some 1 := by decide
 /-- `waitPake3_only_by_valid_pake1`: an invalid share ends the handshake (and is counted) -/
-example : (run {} [.openWin 7 180, .pbkdf 1 .good, .pake1 1 .identity]).tasks = [] := by decide
-example : ((run {} [.openWin 7 180, .pbkdf 1 .good, .pake1 1 .offCurve]).window.map (·.failures)) = some 1 := by decide
+example : (run {} [.openWin 7 180, .pbkdf 1 .good none, .pake1 1 .identity]).tasks = [] := by decide
+example : ((run {} [.openWin 7 180, .pbkdf 1 .good none, .pake1 1 .offCurve]).window.map (·.failures)) = some 1 := by decide
 /-- a second initiator while one is in progress is told `Busy` and is not counted -/
-example : (step (run {} (honest.take 2)) (.pbkdf 2 .good)).2 = .statusBusy := by decide
+example : (step (run {} (honest.take 2)) (.pbkdf 2 .good none)).2 = .statusBusy := by decide
+
+/-! ### the enhanced window, the session table, duplicates, the receive timeout -/
+/-- `single_window_*`: hypotheses satisfiable - basic over enhanced and enhanced over basic are both refused -/
+example : (step (run {} [.openEnh 9 180 16 1000 5]) (.openWin 7 180)).2 = .errBusy := by decide
+example : (step (run {} [.openWin 7 180]) (.openEnh 9 180 16 1000 5)).2 = .errBusy := by decide
+/-- `openEnh_ok_iff` both ways: legal parameters are taken, a 15- or 33-byte salt and a 179 s timeout are not -/
+example : (step {} (.openEnh 9 180 16 1000 5)).2 = .ok := by decide
+example : (step {} (.openEnh 9 180 15 1000 5)).2 = .errConstraint := by decide
+example : (step {} (.openEnh 9 180 33 1000 5)).2 = .errConstraint := by decide
+example : (step {} (.openEnh 9 179 16 1000 5)).2 = .errInvalidCommand := by decide
+/-- under an enhanced window (verifier class 9) the proof must be for class 9 … -/
+def confEnh : Conf := { pw := 9, ctx := 1, pA := 5, pB := 2 }
+example : (run {} [.openEnh 9 180 16 1000 5, .pbkdf 1 .good none, .pake1 1 (.valid 5), .pake3 1 (.mac confEnh)]).sessions =
+    [{ exch := 1, conf := confEnh, windowOpenAtCreation := true, sameWindowAtCreation := true }] := by decide
+/-- … the device's own passcode class (7) is refused and charged -/
+example : (run {} [.openEnh 9 180 16 1000 5, .pbkdf 1 .good none, .pake1 1 (.valid 5), .pake3 1 (.mac conf)]).sessions = [] ∧
+    ((run {} [.openEnh 9 180 16 1000 5, .pbkdf 1 .good none, .pake1 1 (.valid 5), .pake3 1 (.mac conf)]).window.map (·.failures)) = some 1 := by
+  decide
+/-- `proof_is_for_the_open_window`: hypotheses satisfiable (the last step of the run above adds a session) -/
+example : ∃ s sess, sess ∈ (step s (.pake3 1 (.mac confEnh))).1.sessions ∧ sess ∉ s.sessions :=
+  ⟨run {} [.openEnh 9 180 16 1000 5, .pbkdf 1 .good none, .pake1 1 (.valid 5)],
+    { exch := 1, conf := confEnh, windowOpenAtCreation := true, sameWindowAtCreation := true }, by decide, by decide⟩
+
+/-- `cmdOpenEnh_ok` / `cmdOpenEnh_param_error`: the bounds both ways -/
+example : (step {} (.cmdOpenEnh 9 180 16 1000 5 97)).2 = .ok := by decide
+example : (step {} (.cmdOpenEnh 9 180 32 100000 5 97)).2 = .ok := by decide
+example : (step {} (.cmdOpenEnh 9 180 16 999 5 97)).2 = .errPakeParam := by decide
+example : (step {} (.cmdOpenEnh 9 180 16 100001 5 97)).2 = .errPakeParam := by decide
+example : (step {} (.cmdOpenEnh 9 180 15 1000 5 97)).2 = .errPakeParam := by decide
+example : (step {} (.cmdOpenEnh 9 180 33 1000 5 97)).2 = .errPakeParam := by decide
+example : (step {} (.cmdOpenEnh 9 180 16 1000 5 96)).2 = .errPakeParam := by decide
+/-- `cmd_single_window` / `cmd_replaces_expired_window`: hypotheses satisfiable -/
+example : (step (run {} [.openEnh 9 180 16 1000 5]) (.cmdOpenBasic 7 180)).2 = .errClusterBusy := by decide
+example : (step (run {} [.openEnh 9 180 16 1000 5, .tick 180001]) (.cmdOpenBasic 7 180)).2 = .ok := by decide
+example : (step (run {} [.openEnh 9 180 16 1000 5, .tick 180001]) (.openWin 7 180)).2 = .errBusy := by decide
+
+/-- `redelivery_is_noop`: every message of the honest handshake delivered twice - one session, no failure -/
+def honestTwice : List Ev :=
+  [.op (.openWin 7 180), .msg 0 (.pbkdf 1 .good none), .msg 0 (.pbkdf 1 .good none), .msg 1 (.pake1 1 (.valid 5)),
+   .msg 1 (.pake1 1 (.valid 5)), .msg 2 (.pake3 1 (.mac conf)), .msg 2 (.pake3 1 (.mac conf))]
+example : (runEv {} honestTwice).sessions.length = 1 ∧ ((runEv {} honestTwice).window.map (·.failures)) = some 0 := by decide
+/-- a refused Pake3 delivered three times is charged once -/
+example : ((runEv {} [.op (.openWin 7 180), .msg 0 (.pbkdf 1 .good none), .msg 1 (.pake1 1 (.valid 5)),
+    .msg 2 (.pake3 1 (.junk 0)), .msg 2 (.pake3 1 (.junk 0)), .msg 2 (.pake3 1 (.junk 0))]).window.map (·.failures)) = some 1 := by
+  decide
+/-- `dup_is_noop` / `redelivery_is_noop`: hypotheses satisfiable -/
+example : hasUnsec (deliver (run {} [.openWin 7 180]) 0 (.pbkdf 1 .good none)).1 1 = true := by decide
+
+/-- `transport_busy_is_noop`: a full table of sessions with active exchanges -/
+example : (step (run {} [.openWin 7 180, .fill 16 true]) (.pbkdf 1 .good none)).2 = .transportBusy := by decide
+/-- `reservation_failure`: one free slot - silence, one failure charged, no task, no marker, no reserved slot -/
+example : (step (run {} [.openWin 7 180, .fill 15 true]) (.pbkdf 1 .good none)).2 = .none ∧
+    ((step (run {} [.openWin 7 180, .fill 15 true]) (.pbkdf 1 .good none)).1.window.map (·.failures)) = some 1 ∧
+    (step (run {} [.openWin 7 180, .fill 15 true]) (.pbkdf 1 .good none)).1.tasks = [] ∧
+    (step (run {} [.openWin 7 180, .fill 15 true]) (.pbkdf 1 .good none)).1.marker = none ∧
+    (step (run {} [.openWin 7 180, .fill 15 true]) (.pbkdf 1 .good none)).1.table.contains (.reserved 1) = false := by decide
+/-- … and with one evictable session the handshake proceeds -/
+example : (step (run {} [.openWin 7 180, .fill 14 true, .fill 1 false]) (.pbkdf 1 .good (some .filler))).2 = .pbkdfResp 1 := by
+  decide
+/-- what the code does to a handshake in progress when a second initiator's reservation fails: the
+first one loses the marker and is told `SessionNotFound` at its next message -/
+example : (step (run {} [.openWin 7 180, .pbkdf 1 .good none, .fill 13 true, .pbkdf 2 .good none]) (.pake1 1 (.valid 5))).2 =
+    .statusSessionNotFound := by decide
+
+/-- `rxTimeout_not_before` / `rxTimeout_charges`: 38451 ms of silence are survived, 38452 ms are not -/
+example : (run {} [.openWin 7 180, .pbkdf 1 .good none, .tick 38451, .rxTimeout 1]).tasks.length = 1 := by decide
+example : (run {} [.openWin 7 180, .pbkdf 1 .good none, .tick 38452, .rxTimeout 1]).tasks = [] ∧
+    ((run {} [.openWin 7 180, .pbkdf 1 .good none, .tick 38452, .rxTimeout 1]).window.map (·.failures)) = some 1 := by decide
+/-- session parameters advertised by the initiator move the timeout (SAI 1000 ms: the outbound ladder leaves the 4 s active threshold and is then paced by the idle interval) -/
+example : rxTimeoutMs (applyParams defaultMrp (some 1000) none none) localActiveMs = 84936 := by decide
+/-- `idle_handshake_charged_before_marker_expires`: hypotheses satisfiable -/
+example : ∃ t m, findTask (run {} [.openWin 7 180, .pbkdf 1 .good none, .tick 40000]) 1 = some t ∧
+    (run {} [.openWin 7 180, .pbkdf 1 .good none, .tick 40000]).marker = some m ∧ m.exch = 1 ∧ t.mrp = defaultMrp ∧
+    (run {} [.openWin 7 180, .pbkdf 1 .good none, .tick 40000]).now ≤ t.since + rxTimeoutMs t.mrp localActiveMs + sendLadderMs t.mrp :=
+  ⟨{ exch := 1, stage := .waitPake1 1, since := 0, mrp := defaultMrp }, { exch := 1, deadline := 60000 },
+    by decide, by decide, rfl, rfl, by decide⟩
 end Ex
 
 end C02
